@@ -37,7 +37,8 @@ A graph is `<n> <edges>`: nodes `0..n-1`, edges `id,src,tgt,w,ori` separated by 
   fam <n> <ops>                        → several `Network` objects that share their `Node` objects (`Model/GraphShared.lean`: one store of routing
                                          flags, each search resets its own network's nodes only and runs the loop with the explicit priority_dict).
                                          `<ops>` = `;`-separated `<k>:<op>` with `<op>` = `c` (`Network()` on the common node pool) · `x,<s>,<cut>`
-                                         (`sub_network(s, cut)` whose result becomes the next member) · `u` · any `sess` call; replies as for `sess`
+                                         (`sub_network(s, cut)` whose result becomes the next member) · `W,<edge id>,<w>` (`edge.weight = w` on that `Edge` object, `<k>` ignored)
+                                         · `u` · any `sess` call; replies as for `sess`
                                          (`x` answers like `s`); a call on a member that does not exist answers `err`. -/
 namespace TV.Drv.C06
 open TV.Graph TV.Drv
@@ -254,6 +255,12 @@ def famRun (n : Nat) (F : Fam Rat) : List String → Option (List String)
             match a.toNat?, cut? c with
             | some a, some c =>
               let r := execFam F (.extract k a c)
+              (famRun n r.1 rest).map (showOut n r.2 :: ·)
+            | _, _ => none
+          | ["W", i, w] =>
+            match i.toNat?, rat? w with
+            | some i, some w =>
+              let r := execFam F (.setWeight i w)
               (famRun n r.1 rest).map (showOut n r.2 :: ·)
             | _, _ => none
           | _ =>
